@@ -164,8 +164,15 @@ func init() {
 			i := strings.Index(src, "type Convergen interface {\n")
 			emb := src[:i] + "type Loaders interface {\n" + src[i+len("type Convergen interface {\n"):] + "\ntype Convergen interface {\n\tLoaders\n}\n"
 			cells = append(cells, &scen.Cell{ID: c.ID + "_emb", Family: c.Family, Files: map[string]string{"setup.go": emb}, Meta: c.Meta})
+			// round 5 (C08-m9): sibling methods with additional-argument lists of their own, one built before and one after Conv
+			sib := strings.TrimSuffix(src, "}\n") + "\tAconv(*S, string, bool) *D\n\tZconv(*S, float64) *D\n}\n" // (after Conv: its notation lines stay its own)
+			cells = append(cells, &scen.Cell{ID: c.ID + "_sib", Family: c.Family, Files: map[string]string{"setup.go": sib}, Meta: c.Meta})
+			// round 5 (C08-m10): the error result declared under another name than err - the documented shape is `err error` all the same
+			if strings.Contains(src, ", err error)") {
+				cells = append(cells, &scen.Cell{ID: c.ID + "_errname", Family: c.Family, Files: map[string]string{"setup.go": strings.Replace(src, ", err error)", ", failure error)", 1)}, Meta: c.Meta})
+			}
 		})
-		e.Rep.Rule("complete product style x recv x reverse x src ptr/val x dst ptr/val x error x extra args x named x src local/imported x dst local/imported x method declared {in the converter interface, in a plain interface it embeds}; " +
+		e.Rep.Rule("complete product style x recv x reverse x src ptr/val x dst ptr/val x error x extra args x named x src local/imported x dst local/imported x method declared {in the converter interface, in a plain interface it embeds, between two sibling methods with other additional-argument lists} x error result named {err, failure}; " +
 			"non-trivial = accepted cell (each is a distinct signature shape) whose generated signature was compared with the reference builder")
 		// receiver of a type that comes from a DOT-imported package: imported all the same, must be rejected
 		for i, v := range []struct {
